@@ -77,19 +77,30 @@ Section Correct.
     split; [exact I1|]. split; [exact I2|]. intros Hj0. apply I3. unfold n0. rewrite Hj0. reflexivity.
   Qed.
 
-  Theorem partition_correct (seqs : list (list A)) (r : nat) :
-    dflt seqs <> None -> any_empty seqs = false -> all_sorted ltb seqs -> (r <= total seqs)%nat ->
+  Lemma dflt_some (seqs : list (list A)) : seqs <> [] -> any_empty seqs = false -> exists d, dflt seqs = Some d.
+  Proof.
+    intros Hnil Hne. destruct seqs as [|[|x s] rest]; [congruence|discriminate|]. exists x. reflexivity.
+  Qed.
+
+  Lemma total_pos_nonnil (seqs : list (list A)) (r : nat) : (r < total seqs)%nat -> seqs <> [].
+  Proof. intros H ->. cbn in H. lia. Qed.
+
+  (** no hypothesis on the number of sequences: m = 0 (then r = 0) is the "very end" case *)
+  Theorem partition_correct_all (seqs : list (list A)) (r : nat) :
+    any_empty seqs = false -> all_sorted ltb seqs -> (r <= total seqs)%nat ->
     partition ltb seqs (Z.of_nat r) = Some (map Z.of_nat (split_spec ltb seqs r)).
   Proof.
-    intros Hd Hne Hsorted Hr.
+    intros Hne Hsorted Hr.
     destruct (Nat.eq_dec r (total seqs)) as [->|Hlt]; [apply (partition_full_rank ltb HS); assumption|].
     assert (0 <= Z.of_nat r < ztotal seqs) as Hrank by (rewrite ztotal_total; lia).
-    unfold partition, partition_gen. destruct (dflt seqs) as [d|] eqn:Ed; [|congruence]. rewrite Hne.
+    assert (seqs <> []) as Hnil by (apply (total_pos_nonnil seqs r); lia).
+    destruct (dflt_some seqs Hnil Hne) as [d Ed].
+    unfold partition, partition_gen. rewrite Hne.
     destruct (Z.eqb_spec (Z.of_nat r) (ztotal seqs)) as [C|_]; [lia|].
     destruct (Z.ltb_spec (Z.of_nat r) 0) as [C|_]; [lia|]. destruct (Z.ltb_spec (ztotal seqs) (Z.of_nat r)) as [C|_]; [lia|].
-    cbn [orb].
+    cbn [orb]. rewrite Ed.
     destruct (core_setup seqs d r true true) as (l & j & fuel & a0 & b0 & Ec & Hf & Hdl & Hll & I1 & I2 & I3);
-      [intros ->; discriminate|exact Hne|lia|]. rewrite Ec.
+      [exact Hnil|exact Hne|lia|]. rewrite Ec.
     destruct (refine_ok_lex ltb HS seqs d (Z.of_nat r) Hsorted l Hrank Hll j fuel a0 b0 Hf Hdl I1 I2 I3)
       as (a' & b' & Eq & F1 & F2 & F3).
     rewrite Eq. f_equal.
@@ -98,4 +109,10 @@ Section Correct.
     apply (is_split_iff_spec ltb HS seqs r _ Hsorted Hr) in Hsp. rewrite <- Hsp.
     symmetry. apply map_of_to_nat. intros i Hi. destruct F1 as (La & _ & Hst). apply Hst. lia.
   Qed.
+
+  (** the statement with the (redundant) hypothesis [dflt seqs <> None], kept for the importers C06 / C07 *)
+  Theorem partition_correct (seqs : list (list A)) (r : nat) :
+    dflt seqs <> None -> any_empty seqs = false -> all_sorted ltb seqs -> (r <= total seqs)%nat ->
+    partition ltb seqs (Z.of_nat r) = Some (map Z.of_nat (split_spec ltb seqs r)).
+  Proof. intros _. apply partition_correct_all. Qed.
 End Correct.
